@@ -45,8 +45,11 @@ def coeff_string(rng, tag):
         r = int(rng.integers(4))
         toks.append(["harmonic", "%.4f" % rng.uniform(-50, 400), "%d" % rng.integers(-3, 9), "%s%d" % (tag, i)][r])
     s = " ".join(toks) if rng.integers(2) else "  ".join(toks)
-    if rng.integers(2):
+    r = int(rng.integers(12))
+    if r < 6:
         s += ["   # ", " # ", "  #"][int(rng.integers(3))] + " ".join(["%s_%d" % (tag, k) for k in range(int(rng.integers(1, 4)))])
+    elif r == 6:
+        s += "   #"          # a comment sign with nothing behind it is still part of what was stored
     return s
 
 
@@ -81,6 +84,9 @@ def build(rng, case):
     kw = dict(atom_types=[int(x) for x in rng.integers(0, nt, n)], positions=pos, cell=cell, atom_type_elements=els,
               atom_type_masses=[masses[e] for e in els], atom_type_labels=["%s_%d" % (e, t) if rng.integers(2) else e for t, e in enumerate(els)],
               charges=np.round(rng.uniform(-2, 2, n) * (1 if not many else 12), int(rng.integers(2, 9))), groups=[int(x) for x in rng.integers(0, 4 if not many else 25, n)])
+    if rng.integers(10) == 0:
+        kw["atom_type_labels"][int(rng.integers(nt))] = ""        # a type the user left unlabelled
+        case["_empty_label"] = True
     if rng.integers(2):
         kw["pair_coeffs"] = [coeff_string(rng, "p%d" % t) for t in range(nt)]
     for kind in atomsgen.KNAMES:
@@ -318,6 +324,8 @@ def run_case(case, ctx):
     if t2 == t1:
         st.count("first_rewrite_already_identical")
     st.seen("style", style)
+    if case.get("_empty_label"):
+        st.count("structures_with_an_empty_type_label")
     st.seen("cell", case["cell"] + ("" if case["cell"] == "ortho" else str(case["tilt_signs"])))
     st.seen("via", case["via"])
     tl = float(np.abs([a.cell[1, 0], a.cell[2, 0], a.cell[2, 1]]).max())
@@ -411,6 +419,8 @@ def requirements(stats, tier):
         need.append("coefficient tables with >= 10 entries observed for only %d of 5 sections" % stats.nseen("two_digit_table"))
     if stats.get("second_writes_after_edit") < (60 if tier == "quick" else 20000) or stats.nseen("history_edit") < 3:
         need.append("second writes of an edited object: %d, edit kinds %s" % (stats.get("second_writes_after_edit"), sorted(stats.sets.get("history_edit", []))))
+    if stats.get("structures_with_an_empty_type_label") < (5 if tier == "quick" else 1000):
+        need.append("structures with an empty type label: %d" % stats.get("structures_with_an_empty_type_label"))
     if stats.nseen("style") < 2 or stats.nseen("tables") < 5:
         need.append("both styles and all five coefficient sections must be observed")
     if stats.get("ase_agreed") < stats.get("files_written") * 0.9:
